@@ -158,7 +158,11 @@ fn main() {
     let mut threads: Vec<Option<Thread>> = Vec::new();
     let stdin = std::io::stdin();
     let mut line = String::new();
-    let timeout = Duration::from_millis(2000);
+    // a thread that does not answer within this time is reported as `blocked` (it waits for a lock);
+    // the check re-runs a schedule with a longer limit before it believes a `blocked` (machine load)
+    let timeout = Duration::from_millis(
+        std::env::var("C05_TIMEOUT_MS").ok().and_then(|v| v.parse().ok()).unwrap_or(2000),
+    );
     loop {
         line.clear();
         if stdin.read_line(&mut line).unwrap() == 0 {
